@@ -153,6 +153,28 @@ def build_script(seed, size=1.0, micro=False):
         par.op("g1.hash", V.s(x), V.b(rb(rng, 12)), V.b(b"C20")); par.op("g2.encode", V.s(x), V.b(rb(rng, 12)), V.b(b"C20"))
         par.op("g1.map2", fe(), fe()); par.op("g2.map", f2()); par.op("g1.osswu", fe()); par.op("g2.osswu", f2())
         par.op("g1.clear_h", J1[i]); par.op("g2.clear_h", J2[i])
+    # caller-supplied readers / writers that fail, panic, or call back into the library from inside read() / write():
+    # the library must hold nothing (lock, borrowed scratch buffer) across its calls into caller code, and an aborted
+    # call must leave nothing behind; each hostile call is followed by the plain call on the same value
+    sv = [J1[0], J2[1], A1[2], A2[3], f12(), V.r(rng.randrange(R))]
+    for v_ in sv:
+        for cfl in (True, False):
+            Lb = len(spec.ser_bytes(v_, cfl))
+            par.op("ser", v_, V.t(cfl), V.n(0), V.n(-1))
+            par.op("ser", v_, V.t(cfl), V.n(2000 + rng.choice([0, 1, 7])), V.n(-1))              # re-entrant writer
+            par.op("ser", v_, V.t(cfl), V.n(rng.choice([0, 5])), V.n(rng.randrange(Lb)))            # failing writer
+            par.op("ser", v_, V.t(cfl), V.n(0), V.n(-1))
+            par.op("ser", v_, V.t(cfl), V.n(4000), V.n(rng.randrange(Lb)))                            # panicking writer
+            par.op("ser", v_, V.t(cfl), V.n(3), V.n(-1))
+    for ty_, v_ in (("g1", J1[0]), ("g2", J2[1]), ("g1a", A1[2]), ("g2a", A2[3]), ("fq12", sv[4]), ("fr", sv[5])):
+        for cfl in (True, False):
+            data = spec.ser_bytes(v_, cfl)
+            Lb = len(data)
+            par.op("deser", V.s(ty_), V.b(data), V.t(cfl), V.n(8 | rng.choice([0, 1, 4])), V.n(-1))  # re-entrant reader
+            par.op("deser", V.s(ty_), V.b(data), V.t(cfl), V.n(rng.choice([0, 1])), V.n(rng.randrange(Lb)))   # failing reader
+            par.op("deser", V.s(ty_), V.b(data), V.t(cfl), V.n(0), V.n(-1))
+            par.op("deser", V.s(ty_), V.b(data), V.t(cfl), V.n(16), V.n(rng.randrange(Lb)))          # panicking reader
+            par.op("deser", V.s(ty_), V.b(data), V.t(cfl), V.n(2), V.n(-1))
     # calls OUTSIDE the documented domain that end in a panic (caught by the caller): they are part of the call
     # history / schedule too, and must not leave anything behind that changes a later result
     big = V.lst([V.RR(rng.getrandbits(254)), V.RR((1 << 255) | rng.getrandbits(200)), V.RR(rng.getrandbits(255)), V.RR((1 << 255) + 5)])
@@ -200,6 +222,47 @@ def build_script(seed, size=1.0, micro=False):
             par.op("pairing_multi", V.lst([A1[rng.randrange(4)] for k_ in range(40)]), V.lst([A2[rng.randrange(4)] for k_ in range(40)]))
         par.op("prepare2", A2[j])
     return pre.lines, par.lines
+
+
+def first_calls_script(seed):
+    """Operations on the values a default-initialised cache / memo entry would collide with (all-zero and all-ones byte
+    strings, identity encodings, zero and one field elements, identity points, empty messages and tags). Run on many
+    freshly spawned threads in shuffled order, so that each of them is the FIRST library call on some thread."""
+    rng = G.rng_for(seed, ID, "first-calls")
+    s = H.Script()
+    s.next = 200000
+    for g_, gpn in ((1, "g1"), (2, "g2")):
+        for comp in (True, False):
+            n_ = EN.SIZES[(g_, comp)]
+            dec = gpn + (".dec_c" if comp else ".dec_u")
+            strings = [bytes(n_), b"\xff" * n_, EN.encode(g_, None, comp), EN.encode(g_, g1_gen() if g_ == 1 else g2_gen(), comp),
+                       bytes([0x80 if comp else 0]) + bytes(n_ - 1), bytes([0x40]) + bytes(n_ - 1), bytes([0xc0]) + bytes(n_ - 2) + b"\x01"]
+            for b_ in strings:
+                s.op(dec, V.b(b_))
+                s.op(dec + "_unchecked", V.b(b_))
+            for b_ in strings[:4]:
+                s.op("deser", V.s(gpn), V.b(b_), V.t(comp), V.n(0), V.n(-1))
+                s.op("deser", V.s(gpn + "a"), V.b(b_), V.t(comp), V.n(0), V.n(-1))
+        O = V.aff(g_, None)
+        s.op(gpn + ".enc_c", O); s.op(gpn + ".enc_u", O); s.op(gpn + ".amul", O, V.RR(0)); s.op(gpn + ".amul", O, V.RR(1))
+        s.op(gpn + ".in_subgroup", O); s.op(gpn + ".msm", V.lst([]), V.lst([])); s.op(gpn + ".msm", V.lst([O]), V.lst([V.RR(0)]))
+        s.op(gpn + ".hash", V.s("sha256"), V.b(b""), V.b(b"")); s.op(gpn + ".encode", V.s("shake128"), V.b(b""), V.b(b""))
+        z = V.q(0) if g_ == 1 else V.q2((0, 0))
+        s.op(gpn + ".map", z); s.op(gpn + ".map2", z, z); s.op(gpn + ".osswu", z)
+        s.op(gpn + ".clear_h", V.proj(g_, *G.identity_rep(g_, G.rand_fe(g_, rng))))
+    s.op("deser", V.s("fr"), V.b(bytes(32)), V.t(True), V.n(0), V.n(-1))
+    s.op("deser", V.s("fr"), V.b(b"\xff" * 32), V.t(True), V.n(0), V.n(-1))
+    s.op("deser", V.s("fq12"), V.b(bytes(576)), V.t(True), V.n(0), V.n(-1))
+    s.op("deser", V.s("fq12"), V.b(b"\xff" * 576), V.t(True), V.n(0), V.n(-1))
+    for fam, z in (("fq", V.q(0)), ("fr", V.r(0)), ("fq2", V.q2((0, 0)))):
+        s.op(fam + ".inv", z); s.op(fam + ".sqrt", z); s.op(fam + ".sqr", z)
+    s.op("fq.sqrt", V.q(1)); s.op("fq2.sqrt", V.q2((1, 0))); s.op("fq.from_repr", V.QQ(0)); s.op("fr.from_repr", V.RR(0))
+    s.op("expand", V.s("sha256"), V.b(b""), V.b(b""), V.n(0)); s.op("expand", V.s("shake256"), V.b(b""), V.b(b""), V.n(0))
+    s.op("h2f", V.s("fq"), V.s("sha256"), V.b(b""), V.b(b""), V.n(0)); s.op("h2f", V.s("fq2"), V.s("sha256"), V.b(b""), V.b(b""), V.n(1))
+    s.op("from_okm", V.s("fq"), V.b(bytes(64))); s.op("from_okm", V.s("fr"), V.b(bytes(48)))
+    s.op("pairing", V.aff(1, None), V.aff(2, None)); s.op("final_exp", ("q12", F.F12_ZERO)); s.op("final_exp", ("q12", F.F12_ONE))
+    s.op("pairing_multi", V.lst([]), V.lst([]))
+    return s.lines
 
 
 def long_history_script(seed, tier):
@@ -458,6 +521,14 @@ def main(tier, seed, procs):
             res.violations.append(dict(kind="hang", build="rel", id=None, line="threaded run (cold)", expected="progress", observed="no CPU progress for 60 s", script=script))
         elif st == "ok" and (rc != 0 or not check_threaded(res, text, script, pre, par, "rel-threads-cold", judge_model=True)):
             res.violations.append(dict(kind="abort", build="rel", id=None, line="threaded run (cold)", expected="clean exit", observed="rc=%s %s" % (rc, err[-500:]), script=script))
+        # first calls: degenerate inputs as the first library call on freshly spawned threads (baseline judged by the model)
+        fpar = first_calls_script(seed)
+        st, rc, err, text, script = threaded_leg(res, wd, [], fpar, "rel", 16, 8 if q else 64, seed + 13, False, wall=900, tag="firsts")
+        if st == "hang":
+            res.violations.append(dict(kind="hang", build="rel", id=None, line="threaded run (first calls)", expected="progress", observed="no CPU progress for 60 s", script=script))
+        elif st == "ok" and (rc != 0 or not check_threaded(res, text, script, [], fpar, "rel-first-calls", judge_model=True)):
+            res.violations.append(dict(kind="abort", build="rel", id=None, line="threaded run (first calls)", expected="clean exit", observed="rc=%s %s" % (rc, err[-500:]), script=script))
+        res.info["first-call legs (fresh threads x degenerate inputs)"] += 1
         # overflow-checked build, threads
         st, rc, err, text, script = threaded_leg(res, wd, pre, par, "chk", 16, 2, seed + 77, True, wall=900, tag="chk")
         if st == "hang":
@@ -476,7 +547,11 @@ def main(tier, seed, procs):
             seq = "\n".join(pre_seq(pre) + order) + "\n"
             sp, lp = os.path.join(wd, "hist%d.txt" % k), os.path.join(wd, "hist%d.log" % k)
             open(sp, "w").write(seq)
-            rcx, secs, errx = H.run_driver(H.build("rel"), sp, lp, 600)
+            stx, rcx, errx = run_watched([H.build("rel"), sp, lp], None, 900, cwd=wd)
+            if stx == "hang":
+                res.violations.append(dict(kind="hang", build="rel-history", id=None, line="sequential history run %d" % k, expected="progress",
+                                           observed="no CPU progress for 60 s with operations pending (self-deadlock?)", script=seq))
+                continue
             recs = H.parse_script(seq)
             ended, open_ids = H.apply_log(recs, open(lp).read() if os.path.exists(lp) else "", "rel-history")
             if rcx != 0 or not ended:
